@@ -69,8 +69,8 @@ def seen_retry_possible(N: typing.Any) -> bool:
        for fl in ("sync", "async") for u in (False, True)]
     # long chains of retryable failures (six scripted attempts), two kinds per position
     + [{"flavour": fl, "uds": False, "len": 3, "h2only": True} for fl in ("sync", "async")]
-    + [{"flavour": fl, "uds": u, "len": 6, "_pre": "o0 in (1, 5) and o1 in (2, 4) and o2 in (1, 5) and o3 in (2, 4) and o4 in (1, 5) and o5 in (0, 2, 10)"}
-       for fl in ("sync", "async") for u in (False, True)],
+    + [{"flavour": fl, "uds": u, "len": 6, "_pre": f"o0 == {a} and o1 == {b} and o2 in (1, 5) and o3 in (2, 4) and o4 in (1, 5) and o5 in (0, 2, 10)"}
+       for fl in ("sync", "async") for u in (False, True) for a in (1, 5) for b in (2, 4)],
     example=dict(N=2, o0=1, o1=5, o2=0, o3=0, o4=0, o5=0, late=True, tr=True, tc=3, has_tc=True),
     require=("all-attempts-fail", "success-after-retry", "non-retryable", "late-failure", "retries-exhausted", "traced", "h2only-mismatch"),
     timeout={"quick": 400, "thorough": 1500},
